@@ -193,6 +193,19 @@ static void judge(const tmat_t *T, const mref_t *m, int vkind, const fcfg_t *c, 
         if (r->bad_free) VIOL("C06:destroy", "%ld frees of unknown blocks while destroying the returned objects", r->bad_free);
         return;
     }
+    if (!strcmp(PROP, "C17")) {
+        /* after the documented clean-up of everything that was handed back, no library allocation may be left */
+        n_judged++;
+        const char *oc = r->info == 0 ? "ok" : (r->info > 0 && r->info <= n) ? "singular" : (c->lwork == -1 && r->info > n) ? "query" : r->info > n ? "memfail" : "illegal";
+        /* get_perm_c takes a special path when the graph it orders has no edges: A'A (ordering 1) has none when no row holds two entries, A'+A (ordering 2) when A is diagonal */
+        int coupled = 1;
+        if (c->ordering == 1) { int rc[NMAX] = { 0 }; coupled = 0; for (int j = 0; j < n; j++) for (int k = T->colptr[j]; k < T->colptr[j + 1]; k++) if (++rc[T->rowind[k]] > 1) coupled = 1; }
+        else if (c->ordering == 2) { coupled = 0; for (int j = 0; j < n; j++) for (int k = T->colptr[j]; k < T->colptr[j + 1]; k++) if (T->rowind[k] != j) coupled = 1; }
+        if (r->leak_blocks > 0) { char sig[128]; snprintf(sig, sizeof sig, "C17:leak:drv%d:%s%s", c->driver, oc, coupled ? "" : ":get_perm_c-edgeless-graph"); VIOL(sig, "%d blocks still allocated after destroying what the call returned (allocation#:size %s)", r->leak_blocks, r->leak_desc); }
+        /* (a negative balance is the echo of a leak reported for an earlier case: a block left behind then is released now) */
+        if (r->bad_free) VIOL("C17:bad-free", "%ld frees of blocks the library never allocated", r->bad_free);
+        return;
+    }
     if (!strcmp(PROP, "C05")) {
         n_judged++;
         if (r->slot_overflow) VIOL("C05:slot", "%s", r->slotmsg);
@@ -247,6 +260,7 @@ static void cases_for_matrix(const tmat_t *T, int vkind, int salt) {
     int n = T->n; fcfg_t c;
     int ng = ngrid(SW.grid);
     /* C01/C02/C09 speak about runs that can end with info = 0: structurally singular inputs are C06's (and C05's) business */
+    if (!strcmp(PROP, "C17") && !m.struct_nonsing) { G->hyp_skipped++; return; }
     if (!m.struct_nonsing && (!strcmp(PROP, "C01") || !strcmp(PROP, "C02") || !strcmp(PROP, "C09") || (!strcmp(PROP, "C05") && n > 3))) { G->hyp_skipped++; return; }
     if (!strcmp(PROP, "C02") || !strcmp(PROP, "C09") || !strcmp(PROP, "C05")) {
         static const double US[4] = { 1.0, 0.1, 0.5, 0.0 };
@@ -281,6 +295,14 @@ static void cases_for_matrix(const tmat_t *T, int vkind, int salt) {
         for (int g = 0; g < ng; g++) for (int drv = 1; drv <= 2; drv++) for (int P = 1; P <= 2; P++) for (int ord = 0; ord < 2; ord++) {
             fcfg_default(&c); grid_cfg(SW.grid, g, n, &c); c.driver = drv; c.nprocs = P; c.ordering = ord ? 1 : 0; c.nrhs = 1;
             if (drv == DRV_GSSVX) c.fact = (g & 1) ? EQUILIBRATE : DOFACT;
+            run_and_judge(T, &m, vkind, salt, &c);
+        }
+    } else if (!strcmp(PROP, "C17")) {
+        for (int drv = 0; drv <= 2; drv++) for (int ord = 0; ord < 4; ord++) for (int P = 1; P <= 3; P += 2) for (int lw = 0; lw < 2; lw++) for (int g = 0; g < ng && g < 2; g++) {
+            if (lw && drv == DRV_GSSV) continue;
+            if (!m.struct_nonsing && vkind != 4 && vkind != 5) continue;          /* structurally singular inputs crash (known finding of C06) */
+            fcfg_default(&c); grid_cfg(SW.grid, g, n, &c); c.driver = drv; c.ordering = ord; c.nprocs = P; c.lwork = lw ? -1 : 0; c.nrhs = 1;
+            if (drv == DRV_GSSVX) c.fact = g ? EQUILIBRATE : DOFACT;
             run_and_judge(T, &m, vkind, salt, &c);
         }
     } else if (!strcmp(PROP, "C16")) {
